@@ -103,7 +103,13 @@ class P5(histprop.HistProp):
         return cases
 
 
-P = P5("C05", CONFIGS, quick_cases=8, thorough_cases=100, nops=(8, 18), oracle=oracle, known=c03.known,
+def corpus_cases():
+    """every observer (and every other call) on every kind of target: a file, an empty / non-empty directory, missing
+    names, below a file, the root"""
+    return hist.matrix_cases("c05", ["mem", "phys", "alt_mem", "alt_phys", "ovl_mm", "ovl_pp", "ovl_sub"], two_path=False)
+
+
+P = P5("C05", CONFIGS, corpus_cases=corpus_cases, quick_cases=8, thorough_cases=100, nops=(8, 18), oracle=oracle, known=c03.known,
        rule=("histories on all 15 configurations over name sets with names that are prefixes of each other ('a','ab','a.b'), "
              "dotted and multi-byte names; afterwards every universe path of depth <= 2 (absent ones included) is probed "
              "with exists, metadata, is_file, is_dir, read_dir and open+read, the root is walked and a stat-only tree taken; "
